@@ -1,6 +1,7 @@
 import ChythonModel.Proofs.C08Labels
 import ChythonModel.Proofs.C08RoundTrip
 import ChythonModel.Proofs.C08RoundTripB
+import ChythonModel.Proofs.C08Reject
 import Mathlib.Data.List.Perm.Basic
 import Mathlib.Tactic.SplitIfs
 /-!
@@ -532,5 +533,30 @@ theorem bond_token_match_is_documented (b : DocBond) (mb : MBond) :
   unfold BondMatches
   have : (denoteBond b).inRing = b.ring := rfl
   rw [this]
+
+/-! ## 9. characters outside the documented alphabet -/
+
+/-- **unsupported_char_rejected**: a bracket atom whose text contains *any* character that is neither a letter, a digit, white
+    space nor one of `# , ; ! + - : @ ? _` — e.g. the unsupported `&` operator, `$` (recursive SMARTS), `*`, `~`, `=`, `(`, `)`,
+    `%`, `.`, `/`, `^` — is rejected with `IncorrectSmarts`, for every text of every length, whatever else it contains and
+    whatever CX radicals are given. (No scanner of `_query_parse` consumes such a character, so it ends up in an element symbol,
+    which no table contains, or in a primitive, which then fails to parse.) -/
+theorem unsupported_char_rejected (c : Char) (hb : isBad c = true) (s : List Char) (hc : c ∈ s)
+    (h1 : '[' ∉ s) (h2 : ']' ∉ s) (rad : List Nat) :
+    smartsModel ('[' :: s ++ [']']) rad = .err .incorrectSmarts := by
+  obtain ⟨e, he⟩ := bad_char_inner_rejected c hb s hc h1 h2 rad
+  simp only [smartsModel, he]
+
+/-- the `&` operator ("<&> logic operator unsupported") is rejected wherever it occurs in a bracket atom -/
+theorem amp_rejected (s : List Char) (hc : '&' ∈ s) (h1 : '[' ∉ s) (h2 : ']' ∉ s) (rad : List Nat) :
+    smartsModel ('[' :: s ++ [']']) rad = .err .incorrectSmarts :=
+  unsupported_char_rejected '&' (by decide) s hc h1 h2 rad
+
+/-- which characters the theorem covers (and that the documented ones are not among them) -/
+example : "&$*()=~%./\\^<>{}|'\"".toList.all isBad = true ∧
+    "CNaZz09#,;!+-:@?_ ".toList.all (fun c => !isBad c) = true := by decide
+
+example : smartsModel "[C;D2&h1]".toList [] = .err .incorrectSmarts :=
+  amp_rejected "C;D2&h1".toList (by decide) (by decide) (by decide) []
 
 end ChythonModel.Props.C08
